@@ -4,10 +4,17 @@ import VlsModel.Drv.Common
 namespace VlsModel.Drv.NodeReq
 open VlsModel VlsModel.NodeReq VlsModel.Drv
 
-/-- configuration used by the simulator: Hourly 10_000_000 msat velocity, max 4 invoices, ready
+/-- configuration used by the simulator: Hourly 100_000_000 msat velocity, max 6 invoices, ready
     channel oid 1, constant clock -/
-def cfg : Cfg := { maxInvoices := 4, readyOid := 1, now := 1600000000 }
-def vc0 : Velocity.VC := Velocity.VC.ofSpec ⟨10000000, .hourly⟩
+def cfg : Cfg := { maxInvoices := 6, readyOid := 1, now := 1600000000 }
+def vc0 : Velocity.VC := Velocity.VC.ofSpec ⟨100000000, .hourly⟩
+
+/-- the simulator approves two keysends (10 000 000 and 12 000 000 msat) during set-up -/
+def st0 : St :=
+  let s := St.init vc0
+  let s := match keysend cfg s 10000000 false with | some (s', _) => s' | none => s
+  let s := match keysend cfg s 12000000 false with | some (s', _) => s' | none => s
+  { s with lastPresent := false }
 
 def entryName : Nat → String
   | 1 => "g" | 2 => "g2" | n => toString n
@@ -41,6 +48,6 @@ def stepLine (s : St) (toks : List String) : St × String :=
     | none => (s, "panic")
     | some (s', r) => (s', (match r with | .ok => "ok " | .err => "err ") ++ digest s')
 
-def model : Model := { σ := St, init := St.init vc0, step := stepLine }
+def model : Model := { σ := St, init := st0, step := stepLine }
 
 end VlsModel.Drv.NodeReq
